@@ -223,6 +223,12 @@ fn gen_case(target: &str, seed: u64, idx: u64, rt: &tokio::runtime::Runtime, dir
 			if idx % 16 == 5 { let d = [8usize, 64, 200, 512][(idx / 16 % 4) as usize]; return Case { bytes: format!("{}1{}", "[".repeat(d), "]".repeat(d)).into_bytes(), how: format!("nesting depth {d}"), coords: vec![] }; }
 			if idx % 16 == 6 { let d = [8usize, 64, 200][(idx / 16 % 3) as usize]; return Case { bytes: format!("{}1{}", "{\"k\":".repeat(d), "}".repeat(d)).into_bytes(), how: format!("object nesting depth {d}"), coords: vec![] }; }
 			if idx % 16 == 7 { return Case { bytes: { let n = rng.below(40) as usize; rng.bytes(n) }, how: "random bytes".into(), coords: vec![] }; }
+			// malformed documents in which a multi-byte character starts 0..3 bytes in front of a round byte offset (error texts and
+			// buffers are cut at such offsets)
+			if idx % 16 == 8 || idx % 16 == 9 { let at = *rng.pick(&[16usize, 32, 64, 100, 128, 200, 256, 1000, 1024, 4096]); let ch = *rng.pick(&["é", "€", "😀", "ß"]); let back = rng.below(4) as usize;
+				let lead = "{\"name\":\""; let fill = at.saturating_sub(back).saturating_sub(lead.len());
+				let tail = *rng.pick(&["\" x", "\",}", "", "\"}}", "\\u12\"}"]);
+				return Case { bytes: format!("{lead}{}{}{}{tail}", "a".repeat(fill), ch.repeat(3), "b".repeat(rng.below(40) as usize)).into_bytes(), how: format!("malformed text, {ch} {back} bytes in front of byte {at}"), coords: vec![] }; }
 			let s = *rng.pick(&JSONS); if idx % 5 == 0 { Case { bytes: s.as_bytes().to_vec(), how: "valid".into(), coords: vec![] } } else { Case { bytes: mutate_text(rng, s), how: "mutated text".into(), coords: vec![] } }
 		}
 		"csv" | "csvfile" => { let s = *rng.pick(&CSVS); if idx % 7 == 0 { Case { bytes: s.as_bytes().to_vec(), how: "valid".into(), coords: vec![] } } else if idx % 7 == 1 { Case { bytes: { let n = rng.below(30) as usize; rng.bytes(n) }, how: "random bytes".into(), coords: vec![] } } else { Case { bytes: mutate_text(rng, s), how: "mutated text".into(), coords: vec![] } } }
